@@ -233,6 +233,21 @@ pub fn grid(sw: &Switches, tier: Tier) -> (Vec<Planned>, u64) {
             }
         }
     }
+    // B2. ratio sweep: the library's bomb protection compares input/stored size ratios with limits, in compress()
+    // (store raw beyond the limit) and again in decompress(); the two sides must agree at every length, not only
+    // at powers of two. Flat input (the highest ratio a codec reaches) over a geometric ladder of lengths from
+    // 64 KiB to 2 MiB — step 0.4 % for the bzip2/zlib selectors (a window in which the sides disagree by one stored
+    // byte is about 1/N wide, N ≈ 40..150 stored bytes), 2 % for the slower codecs.
+    for (m, step_permille) in [(BZIP2, 4u64), (ZLIB, 4), (0x50, 4), (0x90, 4), (0x42, 4), (0x82, 4), (LZMA, 20), (SPARSE, 20), (PKWARE, 20)] {
+        let mut len = 65_536u64;
+        while len <= 1 << 21 {
+            raw.push(Case {
+                method: m,
+                content: desc(Kind::Const, (len as usize) & !3, 1, 0),
+            });
+            len += (len * step_permille / 1000).max(4);
+        }
+    }
     for &m in &[ZLIB, SPARSE] {
         raw.push(Case {
             method: m,
